@@ -78,6 +78,8 @@ func coverage(a *core.Agg, race bool) map[string]any {
 		"race_oracle_worlds":                    a.Counters["leg.driver-sim-race.runs"],
 		"fault_kinds": map[string]any{"preemption": a.Counters["sched.preemptions"], "root-order permutation / run-set change": a.Counters["executions"] - a.Counters["worlds"], "stall": "drawn per execution (1 in 5)",
 			"permuted_parse_order": a.Counters["fault.permuted_parse_order"], "slow_disk_stalled_read_armed": a.Counters["fault.stalled_read_armed"], "slow_disk_stalled_read_fired": a.Counters["fault.stalled_read_fired"]},
+		"processor_count_seen_by_code_under_test": a.WithPrefix("env."), // executions per simulated runtime.GOMAXPROCS/NumCPU value (others: 1)
+		"inconclusive":   a.WithPrefix("inconclusive."),
 		"simulated_time": "none: gogreement has no timer; progress is counted in yield points (scheduler.steps)",
 		"real_code":      []string{"all eight gogreement analyzers and everything below them (instrumented copy of the working tree)", "analysis.Validate, go/parser, go/types, encoding/gob, gcexportdata"},
 		"stubbed":        []string{"the driver (action graph, scheduling, fact and result plumbing): checker-sim / vet-sim", "the disk (in-memory)"},
